@@ -211,7 +211,7 @@ func (d c01) Execute(c *core.Case) *core.Result {
 	// final round: every ref, every mode, by a fresh observer
 	if ok {
 		id := 10000
-		for _, ref := range []string{mainRef, relRef, openRef} {
+		for _, ref := range []string{mainRef, relRef, openRef, main2Ref} {
 			pos := l.PositionsForRef(ref)
 			if len(pos) == 0 {
 				continue
